@@ -17,4 +17,51 @@ PROPS = {
         ],
         "not_decided": [],
     },
+    "C02": {
+        "modules": ["contracts.c02_graph_sched", "contracts.c14_lifecycle", "contracts.c17_executor",
+                    "contracts.c18_node_scheduler"],
+        "level": "proof",
+        "design_ref": "DESIGN.md section 8, C02",
+        "trusted_base": [
+            "rely R for node callbacks: NodeView::evaluate/start/stop change this graph's schedule only through "
+            "schedule_node_impl (any number of calls, each with when >= T); R is proved reflexive/transitive and "
+            "implied by one call",
+            "call-site obligations of schedule_node_impl (Honourable, NoOvertake) are assumed for callers not under contract",
+            "GraphView::start/evaluate/next_scheduled_time dispatch to start_impl/evaluate_impl/the header field "
+            "through the graph ops table (function-pointer wiring not verified)",
+            "run_executor_phase runs its action exactly once on the calling thread",
+        ],
+        "assumptions": ["requests made from other threads while a simulation runs are outside the contracts"],
+        "not_decided": ["wake-ups inside map_/mesh children (their own queues)", "nested delegation (C09 kernels)"],
+    },
+    "C14": {
+        "modules": ["contracts.c14_lifecycle", "contracts.c02_graph_sched", "contracts.c17_executor"],
+        "level": "proof",
+        "design_ref": "DESIGN.md section 8, C14",
+        "trusted_base": [
+            "scope.h guards (scope_exit, UnwindCleanupGuard, FirstExceptionRecorder, annotate_on_exception) follow the "
+            "summaries in cxxvc/models.py (mirrors of the 15-line bodies)",
+            "NodeView::start/stop rely: a start that throws did not start the node; a stop attempt always ends with "
+            "the node stopped (node.cpp start_impl/stop_impl, dispatch through the node ops table)",
+            "lifecycle observers do not throw",
+            "stop_storage stops the graph (contract used by run_storage)",
+        ],
+        "assumptions": [],
+        "not_decided": ["dynamically created children alive at an arbitrary fault point inside map_/reduce reconciliation",
+                        "node.cpp start/stop, executor destructors and nested-node stop functions are not yet under contract"],
+    },
+    "C17": {
+        "modules": ["contracts.c17_executor", "contracts.c18_node_scheduler"],
+        "level": "proof",
+        "design_ref": "DESIGN.md section 8, C17",
+        "trusted_base": [
+            "std::mutex / lock_guard / unique_lock / condition_variable semantics (held flag; wait_for releases and "
+            "re-acquires; other threads only set the flags)",
+            "atomic loads of stop_requested are re-havocked monotonically at every load",
+            "GraphView::evaluate/next_scheduled_time contracts as proved on graph.cpp",
+        ],
+        "assumptions": ["a node scheduled at exactly prev + MIN_TD may run up to one tick before the wall clock when a "
+                        "wake arrives in the same microsecond (documented floor; DESIGN section 10 F2)"],
+        "not_decided": ["'always stops' as liveness", "actual timing"],
+    },
 }
